@@ -416,7 +416,9 @@ def macro_literals(tier, seed):
 def run(tier, seed, work):
     res = vp.Result("C09", tier, seed, "exploration")
     n = 3 if tier == "quick" else 4
-    ident = list(dict.fromkeys(list(strings_upto(ALPHA, n)) + reserved_edits() + ascii_probes(tier == "thorough")
+    # no grammar has a length limit: long members of every class (around 255 / 256, the common buffer and file-name bounds, and far beyond)
+    long_ones = [unit * k for k in (250, 251, 255, 256, 257, 1000, 4096, 65537) for unit in ("a", "Z9", "a-b", "a.b_c")]
+    ident = list(dict.fromkeys(list(strings_upto(ALPHA, n)) + reserved_edits() + long_ones + ascii_probes(tier == "thorough")
                                + random_strings(seed, 2000 if tier == "quick" else 30000)))
     vers = list(dict.fromkeys(list(strings_upto(VALPHA, 5 if tier == "quick" else 6)) + version_structured()))
     lits = macro_literals(tier, seed)
